@@ -17,6 +17,9 @@ use std::os::raw::c_char;
 use std::sync::Mutex;
 use std::time::Duration;
 
+mod keyops;
+mod storeops;
+
 /// C19 cases run one at a time: the handle counters and the last-error slot are process-global
 static SERIAL: Lazy<Mutex<[usize; 3]>> = Lazy::new(|| Mutex::new([0; 3]));
 const WAIT: Duration = Duration::from_secs(30);
@@ -94,6 +97,10 @@ struct Run {
     last_seen_err: i64, // code of the most recent error reported since the slot was last read
     tag: String,
     twin_keys: HashMap<usize, aries_askar::kms::LocalKey>,
+    sealed: HashMap<usize, keyops::Sealed>,
+    dirs: Vec<String>,
+    dumps: HashMap<usize, Value>,
+    tw: Vec<(usize, Value)>,   // per op: the verdict of the Rust API (a fact the model is told, see model_input)
 }
 
 /// sqlx connections must be dropped inside the runtime
@@ -224,6 +231,7 @@ fn lim_of(op: &Value) -> Option<i64> { let l = op["lim"].as_i64().unwrap_or(-1);
 pub fn exec(case: &Value, _tag: &str) -> Value {
     if case["kind"] == "c19:child" {
         // child side of the null out-pointer probe: the call either returns or kills this process
+        if case["probe"] == "logger" { return storeops::logger_child(case); }
         if case["probe"] == "current_error" {
             let c = unsafe { askar_get_current_error(std::ptr::null_mut()) };
             return json!({"out": {"returned": code_name(c)}});
@@ -235,7 +243,7 @@ pub fn exec(case: &Value, _tag: &str) -> Value {
     let mut guard = SERIAL.lock().unwrap_or_else(|e| e.into_inner());
     let mut last = *guard;
     let mut run = Run { slots: vec![], stores: HashMap::new(), sess: HashMap::new(), scans: HashMap::new(), issued: [vec![], vec![], vec![]],
-                        cbs: vec![], oracle: vec![], feat: BTreeMap::new(), twin_ok: true, files: HashMap::new(), paths: vec![], clobbered: false, last_early: false, last_seen_err: 0, tag: _tag.to_string(), twin_keys: HashMap::new() };
+                        cbs: vec![], oracle: vec![], feat: BTreeMap::new(), twin_ok: true, files: HashMap::new(), paths: vec![], clobbered: false, last_early: false, last_seen_err: 0, tag: _tag.to_string(), twin_keys: HashMap::new(), sealed: HashMap::new(), dirs: vec![], dumps: HashMap::new(), tw: vec![] };
     let ops = case["ops"].as_array().cloned().unwrap_or_default();
     let mut outs = vec![];
     current_error(); // the last-error slot is process-global: start every case with an empty one
@@ -251,7 +259,7 @@ pub fn exec(case: &Value, _tag: &str) -> Value {
             let num = |n: &str| -> i64 { match n { "Backend" => 1, "Busy" => 2, "Duplicate" => 3, "Encryption" => 4, "Input" => 5, "NotFound" => 6, "Unexpected" => 7, "Unsupported" => 8, "Custom" => 100, _ => 0 } };
             if name == "current_error" { run.clobbered = false; run.last_seen_err = 0; }
             else if r == "Unexpected" || cbe == "Unexpected" { run.clobbered = false; run.last_seen_err = 0; }
-            else if (name == "store_close" && !op["cb"].as_bool().unwrap_or(false)) || name == "key_roundtrip" { run.clobbered = true; }
+            else if (name == "store_close" && !op["cb"].as_bool().unwrap_or(false)) || name == "key_roundtrip" || keyops::is_key_op(name) || storeops::is_store_op(name) { run.clobbered = true; }
             else if name == "null_probe" || ((name == "key_fetch" || name == "key_fetch_all") && o.get("cb").and_then(|c| c.get("keys")).map_or(false, |k| !k.is_null())) { run.clobbered = false; run.last_seen_err = 5; } // the bad-index probes of the harness end with an Input error
             else if !cbe.is_empty() { run.clobbered = false; run.last_seen_err = num(cbe); }
             else if (name == "fetch_all" || name == "scan_start") && r == "Unsupported" { run.last_seen_err = 8; } // the caller must be able to retrieve it (D33: the unrepaired source returned without set_last_error); a clobbered slot stays undetermined
@@ -292,9 +300,15 @@ pub fn exec(case: &Value, _tag: &str) -> Value {
         }
     }
     for p in run.paths.iter() { for suffix in ["", "-wal", "-shm", "-journal"] { std::fs::remove_file(format!("{}{}", p, suffix)).ok(); } }
+    for d in run.dirs.iter() { std::fs::remove_dir(d).ok(); }
     *guard = last;
     drop(guard);
-    json!({"out": outs, "oracle": run.oracle, "feat": run.feat})
+    let mut tw = vec![Value::Null; ops.len()];
+    for (i, v) in run.tw.iter() { if *i < tw.len() { tw[*i] = v.clone(); } }
+    let any_tw = tw.iter().any(|v| !v.is_null());
+    let mut res = json!({"out": outs, "oracle": run.oracle, "feat": run.feat});
+    if any_tw { res["model_input"] = json!({"tw": tw}); }
+    res
 }
 
 fn jret(ret: Code, cb: Value) -> Value { json!({"r": code_name(ret), "cb": cb}) }
@@ -688,7 +702,7 @@ fn step(run: &mut Run, i: usize, op: &Value, last: &mut [usize; 3]) -> Value {
             let mut k = P(std::ptr::null());
             let ret = unsafe { askar_key_generate(alg.ptr, std::ptr::null(), 1, if null_out { std::ptr::null_mut() } else { &mut k }) };
             run.check_panic(i, op, ret);
-            let known = ["ed25519", "x25519", "a128gcm", "a256gcm", "c20p", "xc20p", "p256", "k256"].contains(&op["alg"].as_str().unwrap_or(""));
+            let known = { use std::str::FromStr; aries_askar::kms::KeyAlg::from_str(op["alg"].as_str().unwrap_or("")).is_ok() };
             if (null_out || !known) && ret == 0 { run.fail(i, op, "key_generate:invalid-argument->Success".into(), json!({})); }
             if !null_out && known && ret != 0 { run.fail(i, op, format!("key_generate:valid->ret:{}", code_name(ret)), json!({})); }
             if ret == 0 && !k.0.is_null() {
@@ -1033,6 +1047,8 @@ fn step(run: &mut Run, i: usize, op: &Value, last: &mut [usize; 3]) -> Value {
             }
             json!({"crash": crashed})
         }
+        n if keyops::is_key_op(n) => keyops::step_key(run, i, op),
+        n if storeops::is_store_op(n) => storeops::step_store(run, i, op, last),
         _ => json!({"err": "BadOp"}),
     }
 }
